@@ -64,7 +64,21 @@ PkgName(d) == CASE d = <<"w">> -> "wroot"
                 [] d = <<"w", "k">> -> "kpk"
 ModulePath == "example.com/w"
 PkgPath(d) == IF Len(d) = 1 THEN ModulePath ELSE ModulePath \o "/" \o JoinSegs(Tail(d))
-SrcFile    == "svc.go"                                   \* every package declares its interfaces in svc.go
+\* Source-file kinds: the file the interfaces are declared in, per package.  The bindings InterfaceFile /
+\* InterfaceDir / InterfaceDirRelative must denote the REAL file, whatever the file says about itself:
+\*   w      svc.go       starts with  //line /nonexistent/abs/gen.go:1      (absolute target, before the package clause)
+\*   w/a    sv c%o%.go   a space and a non-ASCII letter in the name (%o% = small omega)
+\*   w/a/b  gogo.go      //line tmpl/mid.qtpl:7 between package clause and declarations (relative target)
+\*   w/k    go_log.go    starts with  //line tmpl/gen.qtpl:1                (relative target, before the package clause)
+\* (gogo / go_log: names whose letters also occur in the suffix ".go": trimSuffix is not trimRight)
+SrcFile(d) == CASE d = <<"w">> -> "svc.go"
+                [] d = <<"w", "a">> -> "sv c%o%.go"
+                [] d = <<"w", "a", "b">> -> "gogo.go"
+                [] d = <<"w", "k">> -> "go_log.go"
+SrcStem(d) == CASE d = <<"w">> -> "svc"
+                [] d = <<"w", "a">> -> "sv c%o%"
+                [] d = <<"w", "a", "b">> -> "gogo"
+                [] d = <<"w", "k">> -> "go_log"
 
 -----------------------------------------------------------------------------
 (* Layouts.  mode: how mockery learns about the config file.               *)
@@ -75,7 +89,8 @@ SrcFile    == "svc.go"                                   \* every package declar
 (*   env_rel / env_abs        : MOCKERY_CONFIG=<path>                       *)
 (*   flagenv_rel / flagenv_abs: --config <path> AND MOCKERY_CONFIG=<other>  *)
 (* decoy: a second, different config file that must NOT be used:           *)
-(*   search: .mockery.yml in a strict ancestor of cfgdir (nearest wins);    *)
+(*   search: .mockery.yml or .mockery.yaml in a strict ancestor of cfgdir   *)
+(*        (the nearest directory holding ANY recognised name wins);         *)
 (*   search_both: the .mockery.yml next to the .mockery.yaml (the code      *)
 (*        looks for .yaml first; the documentation is silent, so the        *)
 (*        contract accepts either file, used consistently);                 *)
@@ -91,15 +106,20 @@ Modes         == SearchModes \cup ExplicitModes
 CfgFileName(m) == CASE m = "search_yml" -> ".mockery.yml"
                     [] m \in {"search_yaml", "search_both"} -> ".mockery.yaml"
                     [] OTHER -> "cfg.yml"
-DecoyName(m)   == IF m \in FlagEnvModes THEN "envcfg.yml" ELSE ".mockery.yml"
+\* the decoy of a search layout carries either recognised name (dname): a differently named file further up must
+\* not beat the nearer one
 
 NoDecoy == <<"-">>
 
+DecoyNames == {".mockery.yml", ".mockery.yaml", "envcfg.yml"}
 Layouts ==
-  {[cwd |-> c, mode |-> m, cfgdir |-> g, decoy |-> y] :
-      c \in ModDirs, m \in Modes, g \in Dirs, y \in Dirs \cup {NoDecoy}}
+  {[cwd |-> c, mode |-> m, cfgdir |-> g, decoy |-> y, dname |-> n] :
+      c \in ModDirs, m \in Modes, g \in Dirs, y \in Dirs \cup {NoDecoy}, n \in DecoyNames}
+DecoyName(l) == l.dname
 
 WellFormed(l) ==
+  /\ l.mode \in FlagEnvModes <=> l.dname = "envcfg.yml"
+  /\ l.decoy = NoDecoy \/ l.mode \notin {"search_yml", "search_yaml"} => l.dname # ".mockery.yaml"
   /\ l.mode \in SearchModes => l.cfgdir \in Ancestors(l.cwd)
   /\ l.mode \in {"search_yml", "search_yaml"} =>
         l.decoy = NoDecoy \/ (l.decoy \in Ancestors(l.cfgdir) /\ l.decoy # l.cfgdir)
@@ -111,7 +131,7 @@ AllLayouts == {l \in Layouts : WellFormed(l)}
 
 \* the config files that exist in the world: <<directory, file name, role>>
 CfgFiles(l) == {<<l.cfgdir, CfgFileName(l.mode), "real">>}
-               \cup (IF l.decoy = NoDecoy THEN {} ELSE {<<l.decoy, DecoyName(l.mode), "decoy">>})
+               \cup (IF l.decoy = NoDecoy THEN {} ELSE {<<l.decoy, DecoyName(l), "decoy">>})
 
 \* what is passed on the command line or, in the env modes, in MOCKERY_CONFIG ("" = nothing)
 ConfigParam(l) ==
@@ -121,7 +141,7 @@ ConfigParam(l) ==
          ELSE RelStr(l.cwd, l.cfgdir) \o "/" \o CfgFileName(l.mode)
     [] OTHER -> Abs(l.cfgdir) \o "/" \o CfgFileName(l.mode)
 \* flagenv modes: what MOCKERY_CONFIG holds next to the --config flag
-EnvParam(l) == IF l.mode \in FlagEnvModes THEN Abs(l.decoy) \o "/" \o DecoyName(l.mode) ELSE ""
+EnvParam(l) == IF l.mode \in FlagEnvModes THEN Abs(l.decoy) \o "/" \o DecoyName(l) ELSE ""
 
 -----------------------------------------------------------------------------
 (* Contract: which file is the configuration, and the documented bindings *)
@@ -142,7 +162,7 @@ DecoyMayWin(l)  == "decoy" \in RolesAllowed(l)
 DocConfigDir(l)       == Abs(ConfigDirUsed(l))
 DocIfaceDir(d)        == Abs(d)
 DocIfaceDirRel(l, d)  == IF IsPrefix(ConfigDirUsed(l), d) THEN RelStr(ConfigDirUsed(l), d) ELSE UNSPEC
-DocIfaceFile(d)       == Abs(d) \o "/" \o SrcFile
+DocIfaceFile(d)       == Abs(d) \o "/" \o SrcFile(d)
 
 -----------------------------------------------------------------------------
 (* Code-shaped (after fix 77bca2b and df637ce):
